@@ -21,11 +21,19 @@ def sh(cmd, cwd=None, timeout=1800, env=None):
         return 124, (e.stdout or b'').decode('utf-8', 'replace') if isinstance(e.stdout, bytes) else (e.stdout or ''), round(time.time() - t0, 1)
 
 def demo_cmd(d, R, out):
-    """returns shell command that builds and runs the demo against tree R"""
+    """returns shell command that builds and runs the demo against tree R.  The demo scripts were written by different authors with
+    different conventions (R from the environment, R as $1, or two levels above the script with the files under $R/seeded_out/<mutN>/):
+    the seeded directory is copied to $R/seeded_out/<mutN>/ inside the scratch worktree and the script is run from there with all three."""
+    mut = os.path.basename(d).split('-')[-1]
+    so = '%s/seeded_out/%s' % (R, mut)
+    prep = 'rm -rf %s && mkdir -p %s && cp -r %s/. %s/ && mkdir -p %s.d && cd %s.d' % (so, so, d, so, out, out)
     if os.path.exists(os.path.join(d, 'demo.sh')):
-        return 'mkdir -p %s.d && cd %s.d && R=%s TMPDIR=%s.d sh %s/demo.sh; rc=$?; cd /; rm -rf %s.d; exit $rc' % (out, out, R, out, d, out)
+        return '%s && R=%s TMPDIR=%s.d sh %s/demo.sh %s; rc=$?; cd /; rm -rf %s.d; exit $rc' % (prep, R, out, so, R, out)
     src = 'demo.cc' if os.path.exists(os.path.join(d, 'demo.cc')) else 'demo.c'
-    return ('R=%s; gcc -g -O1 -pthread %s %s/%s %s -o %s -lm || exit 99; timeout 120 %s; rc=$?; rm -f %s; exit $rc' % (R, INC, d, src, SRCS, out, out, out))
+    import re
+    wraps = sorted(set(re.findall(r'--wrap=(\w+)', open(os.path.join(d, src)).read())))
+    extra = ' '.join('-Wl,--wrap=' + w for w in wraps)
+    return ('%s && R=%s; gcc -g -O1 -pthread ' + extra + ' %s %s/%s %s -o %s -lm || exit 99; timeout 120 %s; rc=$?; rm -f %s; cd /; rm -rf %s.d; exit $rc' % (prep, R, INC, so, src, SRCS, out, out, out, out))
 
 def confirm(mid, demo_runs):
     d = os.path.join(V, 'seeded', mid)
@@ -47,7 +55,7 @@ def confirm(mid, demo_runs):
         res['build_s'] = t
         if rc:
             res['error'] = 'build: ' + out[-600:]; return res
-        rc, out, t = sh('ctest --test-dir %s -j8 --timeout 900 2>&1 | tail -8' % b)
+        rc, out, t = sh('ctest --test-dir %s -j8 --timeout 300 > %s/ctest.out 2>&1; rc=$?; tail -8 %s/ctest.out; exit $rc' % (b, scratch, scratch))
         res['ctest_rc'] = rc
         res['ctest_tail'] = out.strip().splitlines()[-6:]
         res['ctest_s'] = t
@@ -58,8 +66,10 @@ def confirm(mid, demo_runs):
             runs_with.append({'rc': rc, 's': t, 'tail': out.strip().splitlines()[-3:]})
             if rc == 99:
                 break
+        wo = os.path.join(scratch, 'wo')
+        rc, out, _ = sh('git -C %s worktree add --detach %s HEAD' % (REPO, wo))
         for k in range(max(1, demo_runs // 2)):
-            rc, out, t = sh(demo_cmd(d, REPO, os.path.join(scratch, 'demo_o')), timeout=400)
+            rc, out, t = sh(demo_cmd(d, wo, os.path.join(scratch, 'demo_o')), timeout=400)
             runs_without.append({'rc': rc, 's': t, 'tail': out.strip().splitlines()[-3:]})
         res['demo_with_change'] = runs_with
         res['demo_unchanged'] = runs_without
@@ -73,6 +83,7 @@ def confirm(mid, demo_runs):
         return res
     finally:
         sh('git -C %s worktree remove --force %s' % (REPO, wt))
+        sh('git -C %s worktree remove --force %s' % (REPO, os.path.join(scratch, 'wo')))
         shutil.rmtree(scratch, ignore_errors=True)
         sh('git -C %s worktree prune' % REPO)
 
